@@ -1077,6 +1077,105 @@ def c13_vacuum_order(env, ob):
     return trace_obligation(env, ob, ctx, res, bad, "vacuum ordering")
 
 
+@obligation(id="C09.aborted_reload_range", also="C02", funcs="PageZeroHeader::get_aborted_transactions,PageZeroHeader::is_transaction_aborted",
+            bounds="the id range scanned when the aborted set is reloaded at open vs the id range the bitmap test accepts; "
+                   "named constants are uninterpreted symbols (same name = same value)", native="c09_aborted_reload")
+def c09_aborted_reload(env, ob):
+    """Every id the persistent bitmap can remember must be reloaded into the coordinator at open: the scan of
+    get_aborted_transactions covers [0, N) for the same N at which is_transaction_aborted gives up."""
+    ctx, f, args, res = explore(env, "storage/page.rs", "get_aborted_transactions", loop_bound=1)
+    ends = set()
+    for path, rv in res:
+        for e in path.events:
+            if callee_is(e, r"Range<u64> as IntoIterator>::into_iter$") and isinstance(e["args"][0], Agg):
+                r = e["args"][0]
+                st, en = r.fields.get("start") or r.fields.get("0"), r.fields.get("end") or r.fields.get("1")
+                if st is None or en is None or not isinstance(en.val, Leaf) or not isinstance(st.val, Leaf):
+                    raise Unsupported("range bounds of the reload scan")
+                ends.add((st.val.term, en.val.term))
+    if len(ends) != 1:
+        raise Unsupported(f"reload scan range not unique: {ends}")
+    (s0, e1), = ends
+    # the bound is_transaction_aborted uses: explore it in the SAME context so that named constants coincide
+    f2 = env.mir.find("storage/page.rs", "is_transaction_aborted", r"PageZeroHeader")
+    ex = mirsmt.Executor(env.mir, ctx, models=dict(COMMON_MODELS), loop_bound=1)
+    a2 = [ctx.sym("hdr", f2.params[0][1]), ctx.declare("probe_txid", "u64")]
+    res2 = ex.run(f2, a2)
+    rejected = [conj(p.pc) for p, rv in res2 if isinstance(rv, Leaf) and rv.term == "false" and len(p.pc) == 1 and not p.panics]
+    if not rejected:
+        raise Unsupported("no early-reject path in is_transaction_aborted")
+    t = a2[1].term
+    # ids the bitmap can answer for = NOT rejected; every such id must lie inside the scanned range [s0, e1)
+    q = conj([f"(not {disj(rejected)})", f"(not (and (bvuge {t} {s0}) (bvult {t} {e1})))"])
+    chk = env.check(ctx, [q, f"(not {disj(rejected)})"])
+    kw = dict(paths=len(res) + len(res2), queries=2)
+    if chk[1]["verdict"] != "sat":
+        return result(ob, "inconclusive", reason="vacuity: " + chk[1]["verdict"], **kw)
+    if chk[0]["verdict"] == "unsat":
+        return result(ob, "discharged", **kw)
+    if chk[0]["verdict"] == "sat":
+        return result(ob, "violated", failed=["tracked_id_outside_reload_scan"], cex={"scan": [s0, e1], "reject": rejected}, **kw)
+    return result(ob, "inconclusive", reason=chk[0]["verdict"], **kw)
+
+
+@obligation(id="C02.undo_restores_before_image", also="C03", funcs="WalRecuperator::undo_update,WalRecuperator::redo_update",
+            bounds="every path of undo_update / redo_update; callees uninterpreted", native="c02_undo_update_direction")
+def c02_undo_direction(env, ob):
+    """undo of an UPDATE must write the row decoded from the record's UNDO payload (the before image) as the new
+    contents, redo the one from the REDO payload."""
+    agg = None
+    for fn, newsrc in (("undo_update", "undo"), ("redo_update", "redo")):
+        ctx, f, args, res = explore(env, "io/recovery.rs", fn)
+
+        def bad(path, rv, fn=fn, newsrc=newsrc):
+            if path.panics or rv is None:
+                return None
+            ups = [e for e in path.events if callee_is(e, r"DmlExecutor::update_row$")]
+            if not ups:
+                return None
+            src = {}
+            for e in path.events:
+                m = re.search(r"Update(?: as Operation>)?::(undo|redo)$", e["callee"])
+                if m and isinstance(e["ret"], (Agg, Ref)):
+                    src[m.group(1)] = mirsmt.describe(e["ret"]).lstrip("&")
+            dec = {}
+            for e in path.events:
+                if callee_is(e, r"Row::from_bytes_checked_with_snapshot$"):
+                    for k, nm in src.items():
+                        if nm and nm in e["argdesc"][0]:
+                            dec[k] = e["ret"].name if isinstance(e["ret"], Agg) else None
+            new_arg = ups[-1]["argdesc"][-1]
+            want = dec.get(newsrc)
+            if not want:
+                return (f"cannot_trace_{newsrc}_image@{fn}", None)
+            if want not in new_arg:
+                return (f"{fn}_writes_the_wrong_image", None)
+            return None
+        agg = merge(agg, trace_obligation(env, ob, ctx, res, bad, "update_row receives the other payload's row as new contents"))
+    return agg
+
+
+@obligation(id="C03.dropped_handle_aborts", also="C02", funcs="<TransactionHandle as Drop>::drop",
+            bounds="every path of the Drop impl of TransactionHandle (a failed autocommit statement or batch relies on it)",
+            native="c03_failed_statement_is_aborted")
+def c03_drop_aborts(env, ob):
+    try:
+        ctx, f, args, res = explore(env, COORD, "drop", sig=r"TransactionHandle")
+    except Unsupported as e:
+        if "0 candidates" in str(e):
+            return result(ob, "violated", failed=["transaction_handle_has_no_drop_abort"],
+                          cex={"what": "no `impl Drop for TransactionHandle`: a failed statement leaves its transaction Active and never marked aborted"}, paths=0, queries=0)
+        raise
+
+    def bad(path, rv):
+        if path.panics:
+            return None
+        if not idx(path, r"TransactionHandle::abort$"):
+            return ("handle_dropped_without_abort", None)
+        return None
+    return trace_obligation(env, ob, ctx, res, bad, "dropping a TransactionHandle does not abort the transaction")
+
+
 # ---------------------------------------------------------------------------------------------------------------------
 # C13: VACUUM's removal decision
 # ---------------------------------------------------------------------------------------------------------------------
